@@ -33,7 +33,15 @@ def run(ctx):
     # ProcessTransaction::write itself when the primitive is inlined) is private and reachable only through
     # ProcessTransaction::write, which is private too (txn.writer_funnel; no function name but the door is fixed)
     members, problems = txn.writer_funnel(prog, ctx.cg)
+    bad_members = {k for k, _ in problems}
     for nm in [k for k, _ in members] + ([txn.WRITE] if txn.WRITE not in [k for k, _ in members] else []):
+        pk, cprob = txn.closure_confinement(prog, nm)
+        if pk is not None:
+            # a closure has no visibility: what stands for "private" is that only the body it is written in can build
+            # it and that it does not leave that body (the funnel then continues at that body)
+            ctx.ob("R10.1", "visibility|%s" % nm, cprob is None and nm not in bad_members, where=prog.bodies[nm].span,
+                   detail="closure confined to %s, which builds it and hands it on only as a call argument" % pk if cprob is None else cprob)
+            continue
         f = prog.fns.get(nm)
         ctx.ob("R10.1", "visibility|%s" % nm, f is not None and f["vis"] not in ("pub", "crate"), where=f["line"] if f else "", detail="visibility: %s" % (f["vis"] if f else "missing"))
     ctx.ob("R10.1", "who-calls-ProcessState::write", not problems, detail="record-writing SQL is executed by %s and reached only through ProcessTransaction::write" % [k for k, r in members if r == "primitive" or k == members[0][0]] if not problems else
@@ -192,7 +200,20 @@ def helper_commit_rule(ctx):
     import re as _re
     from core import taint
     prog = ctx.prog
-    helpers_ = [r"@bin::stamp::run", r"@bin::always::run", r"@bin::ifcreate::run", r"@bin::ifchange::run::\{closure#0\}"]
+    # the helper commands, by role: the bodies of the command binary that open the row of the *running* target, i.e.
+    # call File::from_name with a name built from Env::target() (today: stamp / always / ifcreate `run` and the
+    # closure of ifchange's `run`; a command whose `run` was split or merged is still found, no body name is used)
+    helpers_ = []
+    for hb in sorted(prog.bodies.values(), key=lambda x: x.key):
+        if hb.unit != "bin":
+            continue
+        hba = BA.of(hb)
+        fns_ = hba.calls(r"state::File::from_name")
+        if not fns_:
+            continue
+        tg = taint(hb, src_call=lambda t: call_matches(t, r"env::Env::target"), mode="derived")
+        if any(op_local(hb.blocks[i]["term"]["args"][1]) in tg or any(x in tg for x in hba.ref_chain(op_local(hb.blocks[i]["term"]["args"][1]))) for i in fns_):
+            helpers_.append(hb)
     # File methods that write a verdict-relevant field (transitively through direct calls)
     writers = {}
     for b in prog.bodies.values():
@@ -211,8 +232,7 @@ def helper_commit_rule(ctx):
                     writers.setdefault(b.key, set()).update(writers[t])
                     changed = True
     n = 0
-    for h in helpers_:
-        b = prog.one(h)
+    for b in helpers_:
         ba = BA.of(b)
         # the target's own record: from_name(path built from env.target())
         tgt = taint(b, src_call=lambda t: call_matches(t, r"env::Env::target"), mode="derived")
@@ -229,6 +249,23 @@ def helper_commit_rule(ctx):
                 if name in writers and t["args"] and (op_local(t["args"][0]) in rec or any(x in rec for x in ba.ref_chain(op_local(t["args"][0])))):
                     if any(ba.path([i], [c]) for c in commits):
                         bad.append((i, name, sorted(writers[name])))
+                # the record handed to a closure value that is called here (`update(env, |ptx, f| ..)` with the
+                # open-row / commit skeleton in a helper that was spliced in): the writers run on the closure's parameter
+                for ck in common.closure_call_targets(b, i):
+                    cb = prog.bodies.get(ck)
+                    tup = ba.single_def(op_local(t["args"][1])) if len(t["args"]) > 1 and op_local(t["args"][1]) is not None else None
+                    if cb is None or tup is None or tup[0] != "stmt" or tup[3]["k"] != "agg" or tup[3].get("agg") != "tuple":
+                        continue
+                    seeds = {2 + k for k, o in enumerate(tup[3]["ops"]) if op_local(o) is not None and (op_local(o) in rec or any(x in rec for x in ba.ref_chain(op_local(o))))}
+                    if not seeds or not any(ba.path([i], [c]) for c in commits):
+                        continue
+                    cba = BA.of(cb)
+                    crec = taint(cb, seeds=seeds, mode="direct")
+                    for j in cba.all_calls():
+                        ct = cb.blocks[j]["term"]
+                        cname = callee_paths(ct)[0] if callee_paths(ct) else ""
+                        if cname in writers and ct["args"] and (op_local(ct["args"][0]) in crec or any(x in crec for x in cba.ref_chain(op_local(ct["args"][0])))):
+                            bad.append((i, cname, sorted(writers[cname])))
             ctx.ob("R10.6", "%s|commits-verdict-fields-of-target-before-result" % b.key, not bad, where=ctx.where(b, bad[0][0]) if bad else b.span,
                    detail="the helper only adds dependency edges to the running target's row (two-phase protected)" if not bad else
                    ("%s commits %s on the *running* target's own row (%s) in its own transaction: a kill after that commit and before the builder records the result "
